@@ -119,6 +119,12 @@ func (c *CEnv) lookupIdent(name string) (Val, bool) {
 	if v, ok := c.names[name]; ok {
 		return v, true
 	}
+	switch name {
+	case "fs":
+		return Val{c.g.ghostGet(c.st, "$fs"), nil, "FS"}, true
+	case "stdout":
+		return Val{c.g.ghostGet(c.st, "$out"), types.NewSlice(types.Typ[types.String]), "(Sq Bytes)"}, true
+	}
 	// locals of the function under verification
 	if c.scope != nil {
 		sc := c.scope
@@ -255,6 +261,9 @@ func (c *CEnv) eval(e *CExpr) Val {
 		case strings.HasPrefix(base.S, "(Sq "):
 			et := elemType(base.Ty)
 			return Val{fmt.Sprintf("(select (selems %s) %s)", base.T, i.T), et, base.S[4 : len(base.S)-1]}
+		}
+		if base.S == "FS" {
+			return Val{fmt.Sprintf("(select %s %s)", base.T, i.T), nil, "FNode"}
 		}
 		if m, ok := types.Unalias(base.Ty).Underlying().(*types.Map); ok {
 			_, val := g.mapArrays(c.st, m)
@@ -428,6 +437,14 @@ func (c *CEnv) evalCall(e *CExpr) Val {
 			return m
 		}
 		c.fail("match() outside a regexp characterisation")
+	case "rdPos":
+		return Val{fmt.Sprintf("(select %s %s)", g.ghostGet(c.st, "$rdpos"), arg(0).T), types.Typ[types.Int], "Int"}
+	case "hashData":
+		return Val{fmt.Sprintf("(select %s %s)", g.ghostGet(c.st, "$hashdata"), arg(0).T), types.Typ[types.String], "Bytes"}
+	case "scRest":
+		return Val{fmt.Sprintf("(select %s %s)", g.ghostGet(c.st, "$screst"), arg(0).T), types.Typ[types.String], "Bytes"}
+	case "scTok":
+		return Val{fmt.Sprintf("(select %s %s)", g.ghostGet(c.st, "$sctok"), arg(0).T), types.Typ[types.String], "Bytes"}
 	case "len":
 		v := arg(0)
 		switch {
